@@ -179,7 +179,15 @@ pub fn mappings_for(models: &[CClass], stream: &[u8]) -> MapSet {
 				0 => fresh("N"),
 				1 => format!("r/{}", fresh("N")),
 				2 => format!("r/s/{}$In", fresh("N")),
-				_ => format!("{}{}", c, i),
+				_ => {
+					// never the name of another class of the universe (deep/C1 + 12 = deep/C112)
+					let n = format!("{}{}", c, i);
+					if universe.contains(&n) {
+						format!("{}_{}", c, i)
+					} else {
+						n
+					}
+				}
 			};
 			set.classes.insert(c.to_string(), MClass { names: vec![Some(c.to_string()), Some(new)], ..MClass::default() });
 		}
@@ -211,6 +219,48 @@ pub fn mappings_for(models: &[CClass], stream: &[u8]) -> MapSet {
 	set
 }
 
+/// the answers an independent reference remapper (written from the C06 statement) derives from the mapping model and
+/// the jar's inheritance; used to cross-check the answers of quill's remapper, which the renaming follows
+struct RefAnswers<'a> {
+	r: crate::mapmodel::refops::RefRemapper<'a>,
+	search: crate::mapmodel::refops::Search,
+}
+
+impl crate::classfile::rename::Answers for RefAnswers<'_> {
+	fn class(&self, n: &str) -> Result<String, String> {
+		Ok(self.r.map_class(n))
+	}
+	fn class_any(&self, n: &str) -> Result<String, String> {
+		Ok(if n.starts_with('[') { self.r.map_desc(n) } else { self.r.map_class(n) })
+	}
+	fn field_desc(&self, d: &str) -> Result<String, String> {
+		Ok(self.r.map_desc(d))
+	}
+	fn method_desc(&self, d: &str) -> Result<String, String> {
+		Ok(self.r.map_desc(d))
+	}
+	fn return_desc(&self, d: &str) -> Result<String, String> {
+		Ok(self.r.map_desc(d))
+	}
+	fn field(&self, owner: &str, name: &str, desc: &str) -> Result<(String, String), String> {
+		Ok(self.r.map_member(owner, name, desc, false, self.search))
+	}
+	fn method(&self, owner: &str, name: &str, desc: &str) -> Result<(String, String), String> {
+		Ok(self.r.map_member(owner, name, desc, true, self.search))
+	}
+	fn field_ref(&self, owner: &str, name: &str, desc: &str) -> Result<(String, String, String), String> {
+		let (n, d) = self.field(owner, name, desc)?;
+		Ok((self.class(owner)?, n, d))
+	}
+	fn method_ref(&self, owner: &str, name: &str, desc: &str) -> Result<(String, String, String), String> {
+		if owner.starts_with('[') {
+			return Ok((self.class_any(owner)?, name.to_string(), desc.to_string()));
+		}
+		let (n, d) = self.method(owner, name, desc)?;
+		Ok((self.class(owner)?, n, d))
+	}
+}
+
 pub fn canon_blank(c: &CClass) -> CClass {
 	let mut c = c.canon();
 	blank_unasserted(&mut c);
@@ -226,6 +276,79 @@ fn check(case: &Case, obs: &mut Obs) -> PropResult {
 			Err(_) => obs.label("class_not_encodable"),
 		}
 	}
+	check_jar(class_bytes, &models, &case.map_stream, case.input_form, obs)
+}
+
+/// a chain of `depth` classes deep/C0 <: deep/C1 <: ... (every third link through an interface); the top declares a field and
+/// two methods, the bottom overrides one method and uses all three through its own name, so that the remapper has to walk
+/// the whole chain (limits on the depth of the walk, recursion)
+#[derive(Clone, Debug, Serialize, Deserialize)]
+pub struct DeepCase {
+	pub depth: u16,
+	pub map_stream: Vec<u8>,
+	pub input_form: u8,
+}
+
+fn deep_models(depth: usize) -> Vec<CClass> {
+	let name = |k: usize| format!("deep/C{k}");
+	let ret = || Attr::Code(Code { max_stack: 2, max_locals: 2, insns: vec![Insn::Simple(177)], ..Code::default() });
+	let mut out = Vec::new();
+	for k in 0..depth {
+		let mut c = CClass { minor: 0, major: 52, access: 0x0021, name: name(k), super_class: Some("java/lang/Object".into()), ..CClass::default() };
+		if k + 1 < depth {
+			if k % 3 == 2 {
+				c.interfaces.push(name(k + 1));
+			} else {
+				c.super_class = Some(name(k + 1));
+			}
+		}
+		if (k + 1) % 3 == 0 && k > 0 {
+			c.access = 0x0601; // reached through `implements`: an interface
+		}
+		if k + 1 == depth {
+			c.fields.push(CMember { access: 0x0001, name: "top".into(), desc: "I".into(), attrs: vec![] });
+			c.methods.push(CMember { access: 0x0001, name: "over".into(), desc: "()V".into(), attrs: if c.access & 0x0200 != 0 { vec![] } else { vec![ret()] } });
+			c.methods.push(CMember { access: 0x0001, name: "inherited".into(), desc: "(Ldeep/C0;)V".into(), attrs: if c.access & 0x0200 != 0 { vec![] } else { vec![ret()] } });
+			if c.access & 0x0200 != 0 {
+				c.methods.iter_mut().for_each(|m| m.access = 0x0401);
+				c.fields.iter_mut().for_each(|f| f.access = 0x0019);
+			}
+		}
+		if k == 0 {
+			let code = Code {
+				max_stack: 2,
+				max_locals: 1,
+				insns: vec![
+					Insn::Local { op: 25, index: 0 },
+					Insn::Field { op: 180, owner: name(0), name: "top".into(), desc: "I".into() },
+					Insn::Simple(87),
+					Insn::Local { op: 25, index: 0 },
+					Insn::Local { op: 25, index: 0 },
+					Insn::Invoke { op: 182, owner: name(0), name: "inherited".into(), desc: "(Ldeep/C0;)V".into(), itf: false },
+					Insn::Local { op: 25, index: 0 },
+					Insn::Invoke { op: 182, owner: name(0), name: "over".into(), desc: "()V".into(), itf: false },
+					Insn::Simple(177),
+				],
+				..Code::default()
+			};
+			c.methods.push(CMember { access: 0x0001, name: "over".into(), desc: "()V".into(), attrs: vec![ret()] });
+			c.methods.push(CMember { access: 0x0001, name: "use".into(), desc: "()V".into(), attrs: vec![Attr::Code(code)] });
+		}
+		out.push(c);
+	}
+	out
+}
+
+fn deep_check(case: &DeepCase, obs: &mut Obs) -> PropResult {
+	const DEPTHS: &[usize] = &[2, 5, 33, 63, 64, 65, 66, 67, 100, 129, 257, 400];
+	let depth = DEPTHS[crate::engine::idx(case.depth, DEPTHS.len())];
+	let models = deep_models(depth);
+	let mut class_bytes = Vec::new();
+	for m in &models {
+		let e = encode(m, &Choices::default()).map_err(|e| format!("harness: {e:?}"))?;
+		class_bytes.push((m.name.clone(), e.bytes));
+	}
+	obs.label(format!("depth={depth}"));
 	check_jar(class_bytes, &models, &case.map_stream, case.input_form, obs)
 }
 
@@ -325,6 +448,37 @@ fn check_jar(class_bytes: Vec<(String, Vec<u8>)>, models: &[CClass], map_stream:
 				expected_entries.push((new_name, Entry::Class(Vec::new())));
 			}
 			other => expected_entries.push((name.clone(), other.clone())),
+		}
+	}
+
+	// (0) the remapper's own answers against an independent reference remapper over the same mappings and the jar's
+	// inheritance (super class first, then the interfaces in declaration order): every renamed position must agree.
+	// Where depth-first and nearest-first search disagree (C06 accepts either) both are tried.
+	{
+		use crate::mapmodel::refops::{Inheritance, RefRemapper, Search};
+		let inh: Inheritance = inputs.values().map(|m| (m.name.clone(), m.super_class.iter().chain(m.interfaces.iter()).cloned().collect())).collect();
+		let mut agree = false;
+		let mut why = String::new();
+		for search in [Search::Dfs, Search::Bfs] {
+			let ra = RefAnswers { r: RefRemapper::new(&set, 0, 1, &inh), search };
+			let mut all = true;
+			for (exp_strict, _, old) in expected_classes.values() {
+				let by_ref = Renamer::new(&ra, Gaps::default()).class_model(&inputs[old]).map_err(|e| format!("harness: reference remapper: {e}"))?;
+				if by_ref != *exp_strict {
+					all = false;
+					if why.is_empty() {
+						why = format!("class {old}: (reference remapper vs quill's remapper) {}", first_diff(&by_ref, exp_strict));
+					}
+					break;
+				}
+			}
+			if all {
+				agree = true;
+				break;
+			}
+		}
+		if !agree {
+			return Err(format!("the remapper's answers for the jar deviate from the mappings: {why}\nmappings = {set:?}"));
 		}
 	}
 
@@ -440,6 +594,12 @@ pub fn run(ctx: &mut Ctx) {
 	ctx.assume("unknown attributes are opaque bytes (as for duke's reader and writer): they must come out byte-identical at the same place");
 	ctx.assume("inheritance among the classes of a jar is acyclic");
 	ctx.run_sub("remap_jar", ctx.tier.pick(12000, 600000), strategy, check);
+	ctx.run_sub(
+		"deep_hierarchy",
+		ctx.tier.pick(400, 8_000),
+		|| (any::<u16>(), proptest::collection::vec(any::<u8>(), 4..40), 0u8..3).prop_map(|(depth, map_stream, input_form)| DeepCase { depth, map_stream, input_form }),
+		deep_check,
+	);
 	ctx.run_sub(
 		"corpus_javac",
 		ctx.tier.pick(2000, 60_000),
